@@ -58,6 +58,14 @@ def sweep(only, results):
             nofail = all("no-failing-input-found" in l for l in out.stdout.splitlines() if l.startswith("VIOLATION"))
             results[key] = {"applies": True, "rc": out.returncode, "classes": classes,
                             "only_broken_tie_or_proof": bool(out.returncode) and nofail}
+            # a change that is really about a neighbouring property (recorded in meta.json by the coordinator): when
+            # the property's own check stays quiet, run the neighbour's too and record what it says
+            also = json.load(open(meta)).get("also_run") or []
+            if out.returncode == 0 or nofail:
+                for other in also:
+                    o2 = sh("./check %s" % other, VERIF)
+                    results[key].setdefault("also", {})[other] = {
+                        "rc": o2.returncode, "classes": sorted(set(re.findall(r"^  -> ([^\n]*?): ", o2.stdout, re.M)))}
         finally:
             sh("git checkout -q -- . && git reset -q", REPO)
         print(key, results[key], flush=True)
@@ -73,7 +81,7 @@ def finish(results, resp):
         key = d.split("/")[-2] + "/" + d.split("/")[-1]
         r = results.get(key, {})
         verdict = "not run" if not r else ("patch no longer applies" if not r.get("applies") else
-                                            ("MISSED" if r["rc"] == 0 else
+                                            (("MISSED by its own check" + "".join("; caught by %s: %s" % (o, ", ".join(v["classes"])) for o, v in r.get("also", {}).items() if v["rc"])) if r["rc"] == 0 else
                                              ("caught (broken tie/proof only): " if r["only_broken_tie_or_proof"] else "caught: ") + ", ".join(r["classes"])))
         rows.append("| %s | %s | %s |\n" % (key, m["summary"].replace("|", "\\|").replace("\n", " ")[:300], verdict.replace("|", "\\|")))
     readme = os.path.join(VERIF, "seeded", "README.md")
